@@ -2,18 +2,178 @@
 package main
 
 import (
+	"errors"
+	"fmt"
+	"math/rand"
 	"os"
+	"time"
+
+	"github.com/btcsuite/btcd/wire"
+	"github.com/btcsuite/btcwallet/chain"
+	"github.com/btcsuite/btcwallet/waddrmgr"
+	"github.com/btcsuite/btcwallet/wtxmgr"
 
 	"verif/internal/evid"
 	"verif/internal/ledger"
 	"verif/internal/mgr"
+	"verif/internal/wh"
 )
+
+func walletSnap(f *wh.Funded) string {
+	s := f.Snapshot()
+	for _, sc := range wh.FundScopes {
+		if p, err := f.W.AccountProperties(sc, 0); err == nil {
+			s += fmt.Sprintf(" %v:%d/%d", sc, p.ExternalKeyCount, p.InternalKeyCount)
+		}
+	}
+	st := f.W.Manager.SyncedTo()
+	return s + fmt.Sprintf(" synced=%d/%s", st.Height, st.Hash.String()[:8])
+}
+
+// walletFaults: wallet-level operations (NewAddress, NewChangeAddress, LeaseOutput,
+// ReleaseOutput, relevant-transaction and block notifications) with the k-th write of
+// their database transaction failing, for every k.
+func walletFaults(r *evid.Run, dir string, cs int64) {
+	rg := rand.New(rand.NewSource(cs))
+	f, err := wh.NewFunded(rg, dir, true, 4)
+	if err != nil {
+		if errors.Is(err, wh.ErrNotSynced) {
+			r.Inconclusive("sync watchdog")
+			return
+		}
+		r.Violation("c10:harness-setup", err.Error(), "wallet", cs, nil)
+		return
+	}
+	defer f.Close()
+	f.MinePending()
+	var log []string
+	fail := func(key, what string) {
+		r.Violation(key, what, "wallet", cs, map[string]any{"operations": log, "what": what})
+	}
+	nops := 10 + rg.Intn(10)
+	for n := 0; n < nops; n++ {
+		sc := wh.FundScopes[rg.Intn(4)]
+		kind := []string{"NewAddress", "NewChangeAddress", "LeaseOutput", "ReleaseOutput", "relevant-tx", "block"}[rg.Intn(6)]
+		var coin *wh.Coin
+		for _, c := range f.SortedCoins() {
+			if c.SpentBy == "" && c.Height != -1 && (kind == "ReleaseOutput") == c.Leased {
+				coin = c
+				break
+			}
+		}
+		if (kind == "LeaseOutput" || kind == "ReleaseOutput") && coin == nil {
+			kind = "NewAddress"
+		}
+		// notifications are prepared once and (re)delivered: a failed delivery is retried by redelivering
+		var ntfns []interface{}
+		var payTx *wire.MsgTx
+		switch kind {
+		case "relevant-tx", "block":
+			a, err := f.W.NewAddress(0, sc)
+			if err != nil {
+				fail("c10:harness-newaddress", err.Error())
+				return
+			}
+			payTx = f.PayTo(a, int64(20000+rg.Intn(50000)))
+			if kind == "relevant-tx" {
+				rec, _ := wtxmgr.NewTxRecordFromMsgTx(payTx, time.Unix(1700000000, 0))
+				ntfns = []interface{}{chain.RelevantTx{TxRecord: rec}}
+			} else {
+				b := f.Chain.Extend(payTx)
+				ht := f.Chain.Height()
+				bm := wtxmgr.BlockMeta{Block: wtxmgr.Block{Hash: b.BlockHash(), Height: ht}, Time: b.Header.Timestamp}
+				rec, _ := wtxmgr.NewTxRecordFromMsgTx(payTx, b.Header.Timestamp)
+				ntfns = []interface{}{chain.RelevantTx{TxRecord: rec, Block: &bm}, chain.BlockConnected(bm)}
+			}
+		}
+		run := func(ni int) error {
+			switch kind {
+			case "NewAddress":
+				_, err := f.W.NewAddress(0, sc)
+				return err
+			case "NewChangeAddress":
+				_, err := f.W.NewChangeAddress(0, sc)
+				return err
+			case "LeaseOutput":
+				_, err := f.W.LeaseOutput(wtxmgr.LockID{7}, coin.Op, time.Hour)
+				return err
+			case "ReleaseOutput":
+				return f.W.ReleaseOutput(wtxmgr.LockID{7}, coin.Op)
+			default:
+				f.Chain.Send(ntfns[ni])
+				f.Chain.Barrier()
+				return nil
+			}
+		}
+		steps := 1
+		if len(ntfns) > 0 {
+			steps = len(ntfns)
+		}
+		for ni := 0; ni < steps; ni++ {
+			for k := 1; k < 300; k++ {
+				before := walletSnap(f)
+				f.DB.FailAt = k
+				err := run(ni)
+				fired := f.DB.Fired
+				lf := f.DB.LastFailed
+				f.DB.FailAt = 0
+				if !fired {
+					log = append(log, fmt.Sprintf("%s[%d] (after %d injected faults) -> %v", kind, ni, k-1, err))
+					r.Hit("c10-wallet-ops-swept", 1)
+					if err != nil {
+						fail("c10:wallet-retry-failed:"+kind, fmt.Sprintf("%s failed without any injected fault after %d rolled-back attempts: %v", kind, k-1, err))
+						return
+					}
+					break
+				}
+				r.Hit("c10-wallet-faults-injected", 1)
+				r.Hit("c10-wallet-fault@"+kind, 1)
+				log = append(log, fmt.Sprintf("%s[%d] FAULT@%d (%s %s) -> %v", kind, ni, k, lf.Op, lf.Path, err))
+				if len(ntfns) == 0 && err == nil {
+					fail("c10:swallowed-write-error:wallet-"+kind, fmt.Sprintf("Wallet.%s returned nil although write #%d of its transaction failed (%s %q)", kind, k, lf.Op, lf.Path))
+					return
+				}
+				if after := walletSnap(f); after != before {
+					fail("c10:state-changed-after-rolled-back-fault:wallet-"+kind, fmt.Sprintf("after %s failed at write #%d (%s %q): before %s after %s", kind, k, lf.Op, lf.Path, before, after))
+					return
+				}
+			}
+		}
+		// fault-free effect applied in full
+		switch kind {
+		case "LeaseOutput":
+			coin.Leased = true
+		case "ReleaseOutput":
+			coin.Leased = false
+		case "relevant-tx", "block":
+			us, _ := f.W.ListUnspent(0, 1<<30, "")
+			found := false
+			for _, u := range us {
+				if u.TxID == payTx.TxHash().String() {
+					found = true
+				}
+			}
+			if !found {
+				fail("c10:effect-lost-after-retry:wallet-"+kind, fmt.Sprintf("after the faults and the successful redelivery the payment %v is not among the wallet's outputs", payTx.TxHash()))
+				return
+			}
+			if kind == "block" {
+				if st := f.W.Manager.SyncedTo(); st.Height != f.Chain.Height() {
+					fail("c10:effect-lost-after-retry:wallet-block", fmt.Sprintf("synced-to %d, backend tip %d", st.Height, f.Chain.Height()))
+					return
+				}
+			}
+		}
+	}
+	r.Case(fmt.Sprint("wallet", cs, len(log)), true)
+	_ = waddrmgr.KeyScopeBIP0084
+}
 
 const P = "C10"
 
 func main() {
 	r := evid.New(P, "fault_enumeration")
-	r.Rule("fault enumeration: from states reached by random prefixes, EVERY mutating operation instance is first run with its k-th database write (Put / Delete / CreateBucket* / DeleteNestedBucket / NextSequence / cursor delete, counted per transaction by the vdb wrapper) failing, for every k = 1..W until the operation runs fault-free. Per injected fault: the operation must return an error (no swallowed write error), and after the enclosing transaction rolled back the complete query surface must equal the one before (wtxmgr: balance grid, unspent, watch set, unmined set, TxDetails of every universe tx, per-block ranges, leases; waddrmgr: the C08 battery on the running manager, plus running-vs-restarted). The final fault-free retry must succeed like a fault-free twin (same success/failure; for waddrmgr the post-state battery must equal that of a fresh manager on a copy that ran the operation without faults; returned addresses must be the oracle's). Operations: wtxmgr InsertTx mined/unmined (+AddCredit), Rollback, RemoveUnminedTx, LockOutput, UnlockOutput, DeleteExpiredLockedOutputs; waddrmgr Next*/Extend*, NewAccount, NewAccountWatchingOnly, RenameAccount, ImportPrivateKey, ImportPublicKey, ImportScript/WitnessScript/TaprootScript, MarkUsed, SetSyncedTo, ChangePassphrase(pub/priv), NewScopedKeyManager, ConvertToWatchingOnly. Non-trivial = history with at least 5 injected faults; distinct = distinct event/op sequences.")
+	r.Rule("fault enumeration: from states reached by random prefixes, EVERY mutating operation instance is first run with its k-th database write (Put / Delete / CreateBucket* / DeleteNestedBucket / NextSequence / cursor delete, counted per transaction by the vdb wrapper) failing, for every k = 1..W until the operation runs fault-free. Per injected fault: the operation must return an error (no swallowed write error), and after the enclosing transaction rolled back the complete query surface must equal the one before (wtxmgr: balance grid, unspent, watch set, unmined set, TxDetails of every universe tx, per-block ranges, leases; waddrmgr: the C08 battery on the running manager, plus running-vs-restarted). The final fault-free retry must succeed like a fault-free twin (same success/failure; for waddrmgr the post-state battery must equal that of a fresh manager on a copy that ran the operation without faults; returned addresses must be the oracle's). Operations: wtxmgr InsertTx mined/unmined (+AddCredit), Rollback, RemoveUnminedTx, LockOutput, UnlockOutput, DeleteExpiredLockedOutputs; waddrmgr Next*/Extend*, NewAccount, NewAccountWatchingOnly, RenameAccount, ImportPrivateKey, ImportPublicKey, ImportScript/WitnessScript/TaprootScript, MarkUsed, SetSyncedTo, ChangePassphrase(pub/priv), NewScopedKeyManager, ConvertToWatchingOnly; wallet NewAddress, NewChangeAddress, LeaseOutput, ReleaseOutput, relevant-transaction and block notifications (a failed notification is retried by redelivery). Non-trivial = history with at least 5 injected faults; distinct = distinct event/op sequences.")
 	r.Trusted("vdb wrapper counts and fails writes at the walletdb interface boundary", "walletdb/bdb rollback (C11)")
 	r.Assume("the would-be address of a failed issuing call (O-4) and Birthday() (O-5) are outside the compared surface")
 	dir, _ := os.MkdirTemp("", "c10")
@@ -32,6 +192,9 @@ func main() {
 		res := mgr.RunHistory(mcfg, cs, dir)
 		mgr.Record(r, res, "waddrmgr", cs, res.Stats["c10-faults-injected"] >= 5)
 	})
+	r.Parallel("wallet", r.N(12, 300), evid.Workers(), func(i int, cs int64) { walletFaults(r, dir, cs) })
+	r.Require("c10-wallet-faults-injected", 300)
+	r.Require("c10-wallet-ops-swept", 60)
 	r.Require("faults-injected", 2000)
 	r.Require("c10-faults-injected", 1000)
 	r.Require("c10-ops-swept", 200)
